@@ -54,8 +54,19 @@ func VerifConstsC12() map[string]any {
 		m["bbr_"+string(p)+"_highGain_milli"] = uint64(c.highGain*1000 + 0.5)
 		m["bbr_"+string(p)+"_numStartupRtts"] = uint64(c.numStartupRtts)
 		m["bbr_"+string(p)+"_bytesLostMultiplier"] = uint64(c.bytesLostMultiplier)
+		m["bbr_"+string(p)+"_drainToTarget"] = b2u(c.drainToTarget)
+		m["bbr_"+string(p)+"_detectOvershooting"] = b2u(c.detectOvershooting)
+		m["bbr_"+string(p)+"_ackAggStartup"] = b2u(c.enableAckAggregationStartup)
+		m["bbr_"+string(p)+"_expireAckAggStartup"] = b2u(c.expireAckAggregationStartup)
 	}
 	return m
+}
+
+func b2u(b bool) uint64 {
+	if b {
+		return 1
+	}
+	return 0
 }
 
 func b01(b bool) string {
